@@ -52,8 +52,8 @@ MatchV(h1, h2, ord, m, a, b) ==
   ELSE IF ~IsRef(a) THEN (IF a.t # b.t THEN Bad("type") ELSE IF a.d # b.d THEN Bad("value") ELSE Good(m))
   ELSE LET i == a.id
            j == b.id
-       IN  IF m[i] # 0 THEN (IF m[i] = j THEN Good(m) ELSE Bad("sharing lost: one object was read back as two"))
-           ELSE IF \E x \in DOMAIN m : m[x] = j THEN Bad("sharing introduced: two objects were read back as one")
+       IN  IF m[i] # 0 THEN (IF m[i] = j THEN Good(m) ELSE Bad("sharing lost"))
+           ELSE IF \E x \in DOMAIN m : m[x] = j THEN Bad("sharing introduced")
            ELSE IF h1[i].t # h2[j].t THEN Bad("type")
            ELSE IF h1[i].d # h2[j].d THEN Bad("value")
            ELSE LET m1 == [m EXCEPT ![i] = j]
